@@ -172,12 +172,32 @@ def index_conjunction(ctx):
                     and ctx.res.type_of(n.func.value, f) == "Index"):
                 continue
             prop = {"_remove_helper": "C02", "_update_helper": "C03"}.get(f.name, "C01")
-            cl = guard_clauses(guards(n))
             arg = n.args[0] if n.args else None
-            given = any(len(c) == 1 and next(iter(c)) == (f"truthy({fp})", True) for c in cl) or \
-                any(len(c) == 1 and next(iter(c)) == (f"is(None,{fp})", False) for c in cl)
-            absent = any(len(c) == 1 and next(iter(c)) == (f"truthy({fp})", False) for c in cl) or \
-                any(len(c) == 1 and next(iter(c)) == (f"is(None,{fp})", True) for c in cl)
+            from ..logic import cnf, formula, negate
+
+            def units(node):
+                return {next(iter(c)) for c in guard_clauses(guards(node)) if len(c) == 1}
+
+            def expand(e, lits, depth=0):
+                """[(unit literals, expression)] the argument can be, through locals and conditional expressions"""
+                if isinstance(e, ast.IfExp):
+                    fm = formula(e.test)
+                    try:
+                        t_ = {next(iter(c)) for c in cnf(fm) if len(c) == 1}
+                        f_ = {next(iter(c)) for c in cnf(negate(fm)) if len(c) == 1}
+                    except ValueError:
+                        t_, f_ = set(), set()
+                    return expand(e.body, lits | t_, depth) + expand(e.orelse, lits | f_, depth)
+                if isinstance(e, ast.Name) and e.id != "query" and depth < 3:
+                    out = []
+                    for st_ in walk_local(f.node):
+                        if isinstance(st_, ast.Assign) and len(st_.targets) == 1 and isinstance(st_.targets[0], ast.Name) \
+                                and st_.targets[0].id == e.id:
+                            out += expand(st_.value, lits | units(st_), depth + 1)
+                    if out:
+                        return out
+                return [(lits, e)]
+            cases = expand(arg, units(n)) if arg is not None else []
             bad = []
 
             def is_mq(e: ast.AST) -> bool:
@@ -186,21 +206,29 @@ def index_conjunction(ctx):
                     return bool(vals) and all(is_mq(v) for v in vals)
                 return isinstance(e, ast.Compare) and isinstance(e.ops[0], ast.Eq) \
                     and norm(e.left) == "MeasurementQuery()" and norm(e.comparators[0]) == fp
-
-            if given:
-                if not (isinstance(arg, ast.BinOp) and isinstance(arg.op, ast.BitAnd)):
-                    bad.append(f"with a filter the index is searched for `{norm(arg)}`, not `<measurement query> & query`")
+            given = False
+            for lits, e in cases:
+                g_ = (f"truthy({fp})", True) in lits or (f"is(None,{fp})", False) in lits
+                a_ = (f"truthy({fp})", False) in lits or (f"is(None,{fp})", True) in lits
+                if g_ and a_:
+                    continue  # contradictory combination (filter given in the call's guard, absent in the assignment's)
+                if g_:
+                    given = True
+                    if not (isinstance(e, ast.BinOp) and isinstance(e.op, ast.BitAnd)):
+                        bad.append(f"with a filter the index is searched for `{norm(e)}`, not `<measurement query> & query`")
+                    else:
+                        sides = [e.left, e.right]
+                        if not any(is_mq(s_) for s_ in sides):
+                            bad.append(f"no operand of `{norm(e)}` is MeasurementQuery() == {fp}")
+                        if not any(isinstance(s_, ast.Name) and s_.id == "query" for s_ in sides):
+                            bad.append(f"the user query is not an operand of `{norm(e)}`")
+                elif a_:
+                    if not (isinstance(e, ast.Name) and e.id == "query"):
+                        bad.append(f"without a filter the index is searched for `{norm(e)}`, not the user query")
                 else:
-                    sides = [arg.left, arg.right]
-                    if not any(is_mq(s) for s in sides):
-                        bad.append(f"no operand of `{norm(arg)}` is MeasurementQuery() == {fp}")
-                    if not any(isinstance(s, ast.Name) and s.id == "query" for s in sides):
-                        bad.append(f"the user query is not an operand of `{norm(arg)}`")
-            elif absent:
-                if not (isinstance(arg, ast.Name) and arg.id == "query"):
-                    bad.append(f"without a filter the index is searched for `{norm(arg)}`, not the user query")
-            else:
-                bad.append(f"index search `{norm(n)}` is not conditioned on the presence of the filter `{fp}`")
+                    bad.append(f"index search `{norm(n)}` is not conditioned on the presence of the filter `{fp}`")
+            if not cases:
+                bad.append("index search without an argument")
             yield Ob("C01.R5b", [prop, "C10"], f"{f.qual} | index search argument | {norm(n)}", not bad,
                      "; ".join(bad) if bad else ("filter conjoined with the query" if given else "plain query without filter"),
                      ctx.prog.loc(n))
